@@ -55,15 +55,37 @@ Preset(nm) ==
     [] nm = "filter"  -> [NoAct EXCEPT !.name = nm, !.dyn = "filter", !.g0 = One, !.tau = R(1, 2)]
     [] nm = "filterlim" -> [NoAct EXCEPT !.name = nm, !.dyn = "filter", !.g0 = RI(2), !.g2 = R(1, 2), !.tau = R(1, 4),
                                          !.alim = TRUE, !.alo = R(-1, 2), !.ahi = R(1, 2), !.early = TRUE]
+    [] nm = "fexact"  -> [NoAct EXCEPT !.name = nm, !.dyn = "filterexact", !.g0 = One, !.tau = R(1, 4)]
+    [] nm = "fexactlim" -> [NoAct EXCEPT !.name = nm, !.dyn = "filterexact", !.g0 = RI(2), !.tau = R(1, 4),
+                                         !.alim = TRUE, !.alo = R(-1, 2), !.ahi = R(1, 2)]
     [] nm = "filter3" -> [NoAct EXCEPT !.name = nm, !.dyn = "filter", !.g0 = One, !.tau = R(3, 4)]
     [] nm = "geared"  -> [NoAct EXCEPT !.name = nm, !.dyn = "none", !.g0 = One, !.b1 = RI(-1), !.b2 = R(-1, 4), !.gear = RI(2)]
     [] nm = "reflect" -> [NoAct EXCEPT !.name = nm, !.dyn = "none", !.g0 = One, !.gear = RI(2), !.adamp = R(1, 4), !.aarm = R(1, 4)]
 AllPresets == {"none", "motor", "motorcl", "servo", "affgain", "affgaincl", "integ", "intfree", "intearly", "filter",
-               "filterlim", "filter3", "geared", "reflect"}
+               "filterlim", "filter3", "geared", "reflect", "fexact", "fexactlim"}
 PresetOf == [nm \in AllPresets |-> Preset(nm)]
 AP(pp) == PresetOf[pp.act]                      \* the actuator of a parameter record (pp.act is the preset name)
 HasAct(a)   == a.dyn # "off"
-HasState(a) == a.dyn \in {"integrator", "filter"}
+HasState(a) == a.dyn \in {"integrator", "filter", "filterexact"}
+IsFilter(a) == a.dyn \in {"filter", "filterexact"}
+
+\* filterexact integrates the filter exactly over a step:  act' = act + act_dot * tau * E,  E = 1 - exp(-h / tau).
+\* E is irrational; the specification carries a rational ENCLOSURE [elo, ehi] of it, obtained from the alternating
+\* series  exp(-r) = sum_k (-r)^k / k!  whose partial sums bracket the limit once the terms decrease (k >= r):
+\*     S_(n-1) <= exp(-r) <= S_n   for even n.      Ratios r = h / tau and orders n are chosen so that n! r-denominators
+\* stay inside TLC's 32-bit integers (width of the enclosure: 5e-9, 3e-7, 9e-6).
+ExpRatios == {Rt(1, 2), One, RI(2)}
+ExpOrder(r) == CASE r = Rt(1, 2) -> 8 [] r = One -> 10 [] r = RI(2) -> 12
+RECURSIVE ExpTerm(_, _)
+ExpTerm(r, k) == IF k = 0 THEN One ELSE Mul(ExpTerm(r, k - 1), Div(Neg(r), RI(k)))
+RECURSIVE ExpSum(_, _)
+ExpSum(r, n) == IF n = 0 THEN One ELSE Add(ExpSum(r, n - 1), ExpTerm(r, n))
+\* comparisons over the common denominator (the cross products of LawRat!Le leave the 32-bit range for these values)
+LeL(x, y) == Sub(y, x)[1] >= 0
+LtL(x, y) == Sub(y, x)[1] > 0
+ClipL(x, lo, hi) == IF LeL(x, lo) THEN lo ELSE IF LeL(hi, x) THEN hi ELSE x
+ELo(r) == Sub(One, ExpSum(r, ExpOrder(r)))            \* 1 - (upper bound of exp(-r))
+EHi(r) == Sub(One, ExpSum(r, ExpOrder(r) - 1))        \* 1 - (lower bound of exp(-r))
 
 \* Butcher tableau of the classical 4th-order Runge-Kutta method
 RKA == << << >>, <<R(1, 2)>>, <<Zero, R(1, 2)>>, <<Zero, Zero, One>> >>
@@ -114,13 +136,27 @@ Fwd(pp, xx, uu) ==
   IN [wdot |-> wdot, af |-> af, qa |-> qa, pas |-> Add(spr, dmp), F |-> F, qacc |-> Div(F, MEff(pp)),
       D |-> Add(dact, dpas)]
 
+\* mj_nextActivation for filterexact: the two ends of the enclosure of act + act_dot tau E, each clamped to actrange
+\* (documented: activations are clamped to actrange whatever the dynamics type)
+NextActExact(pp, w, wdot) ==
+  LET a  == AP(pp)
+      d  == Mul(wdot, a.tau)
+      y1 == Add(w, Mul(d, pp.elo))
+      y2 == Add(w, Mul(d, pp.ehi))
+      lo == IF LeL(y1, y2) THEN y1 ELSE y2
+      hi == IF LeL(y1, y2) THEN y2 ELSE y1
+  IN IF a.alim /\ Variant # "noexactclamp" THEN <<ClipL(lo, a.alo, a.ahi), ClipL(hi, a.alo, a.ahi)>> ELSE <<lo, hi>>
+
 \* mj_advance: activations, velocity, position (with the given velocity), time
+\* (w .. wh is the enclosure of the new activation; wh = w except for filterexact away from the clamp)
 Advance(pp, st, wdot, acc, usenew, posvel) ==
-  LET w2 == IF ~(HasState(AP(pp)) /\ pp.actuation) THEN st.w
-            ELSE NextAct(pp, st.w, IF pp.groupon THEN wdot ELSE Zero)
+  LET wd == IF pp.groupon THEN wdot ELSE Zero
+      ww == IF ~(HasState(AP(pp)) /\ pp.actuation) THEN <<st.w, st.w>>
+            ELSE IF AP(pp).dyn = "filterexact" THEN NextActExact(pp, st.w, wd)
+            ELSE <<NextAct(pp, st.w, wd), NextAct(pp, st.w, wd)>>
       v2 == Add(st.v, Mul(pp.h, acc))
       pv == IF usenew THEN (IF Variant = "explicitpos" THEN st.v ELSE v2) ELSE posvel
-  IN [q |-> Add(st.q, Mul(pp.h, pv)), v |-> v2, w |-> w2, t |-> Add(st.t, pp.h)]
+  IN [q |-> Add(st.q, Mul(pp.h, pv)), v |-> v2, w |-> ww[1], wh |-> ww[2], t |-> Add(st.t, pp.h)]
 
 EulerImplicitDamping(pp) == pp.edamp /\ pp.damper
 EulerDiv(pp)    == IF EulerImplicitDamping(pp) THEN Add(MEff(pp), Mul(pp.h, BEff(pp))) ELSE MEff(pp)
@@ -133,15 +169,15 @@ InputsDyadic(pp, st, uu) ==
 \* every floating-point operation of the step is exact when the inputs are short dyadics and all divisors powers of two
 Exact(pp, st, uu, div) ==
   /\ InputsDyadic(pp, st, uu) /\ Pow2Rat(div) /\ Pow2Rat(MEff(pp))
-  /\ (AP(pp).dyn = "filter" => Pow2Rat(AP(pp).tau))
+  /\ (IsFilter(AP(pp)) => Pow2Rat(AP(pp).tau))
 
 SmallState(st, B) == SmallR(st.q, B) /\ SmallR(st.v, B) /\ SmallR(st.w, B) /\ SmallR(st.t, B)
 
 \* ---- behaviours ----------------------------------------------------------------------------------------------
 NoFw == [wdot |-> Zero, af |-> Zero, qa |-> Zero, pas |-> Zero, F |-> Zero, qacc |-> Zero, D |-> Zero]
-S0 == [q |-> Zero, v |-> Zero, w |-> Zero, t |-> Zero]
+S0 == [q |-> Zero, v |-> Zero, w |-> Zero, wh |-> Zero, t |-> Zero]
 P0 == [h |-> One, m |-> One, k |-> Zero, b |-> Zero, f |-> Zero, integ |-> "Euler", edamp |-> TRUE, damper |-> TRUE,
-       spring |-> TRUE, actuation |-> TRUE, groupon |-> TRUE, act |-> "none", meff |-> One, beff |-> Zero]
+       spring |-> TRUE, actuation |-> TRUE, groupon |-> TRUE, act |-> "none", meff |-> One, beff |-> Zero, elo |-> Zero, ehi |-> Zero]
 
 \* The case is set up the way a user sets it up: compile a model, write the options, write the state.
 \* (Also keeps the branching of every step small: TLC's simulator enumerates all successors of a state.)
@@ -164,8 +200,13 @@ PickIntegrator ==     \* mjOption: timestep, integrator
   /\ pc = "integrator"
   /\ \E hh \in Hs, ii \in Integs :
        \* RK4 only on all-dyadic systems: four nested stages over mixed denominators leave TLC's 32-bit integers
-       /\ (ii = "RK4" => Dyadic(hh) /\ Pow2Rat(p.meff) /\ (AP(p).dyn = "filter" => Pow2Rat(AP(p).tau)))
-       /\ p' = [p EXCEPT !.h = hh, !.integ = ii]
+       /\ (ii = "RK4" => Dyadic(hh) /\ Pow2Rat(p.meff) /\ (IsFilter(AP(p)) => Pow2Rat(AP(p).tau)))
+       \* filterexact only for the ratios h / tau whose enclosure of exp is available, and not under RK4 (the weighted
+       \* stage derivatives times the enclosure leave the 32-bit range; RK4 ends in the same mj_nextActivation)
+       /\ (AP(p).dyn = "filterexact" => Div(hh, AP(p).tau) \in ExpRatios /\ ii # "RK4")
+       /\ p' = [p EXCEPT !.h = hh, !.integ = ii,
+                         !.elo = IF AP(p).dyn = "filterexact" THEN ELo(Div(hh, AP(p).tau)) ELSE Zero,
+                         !.ehi = IF AP(p).dyn = "filterexact" THEN EHi(Div(hh, AP(p).tau)) ELSE Zero]
   /\ pc' = "flags" /\ ev' = [op |-> "integrator"]
   /\ UNCHANGED <<s, x, u, fw, stage, ks, n>>
 
@@ -187,13 +228,14 @@ PickState ==          \* qpos, qvel, act, time
   /\ \E s0 \in [q : Q0s, v : V0s, w : W0s, t : T0s] :
        /\ (~HasState(AP(p)) => s0.w = Zero)
        /\ (AP(p).alim => Le(AP(p).alo, s0.w) /\ Le(s0.w, AP(p).ahi))
-       /\ s' = s0 /\ x' = s0
+       /\ s' = [q |-> s0.q, v |-> s0.v, w |-> s0.w, wh |-> s0.w, t |-> s0.t] /\ x' = s'
   /\ pc' = "ctl" /\ ev' = [op |-> "state"]
   /\ UNCHANGED <<p, u, fw, stage, ks, n>>
 
 SetCtrl(uu) ==
   /\ pc = "ctl" /\ n < MaxSteps
   /\ SmallState(s, IF p.integ = "RK4" THEN BoundRK ELSE Bound)
+  /\ s.wh = s.w                      \* a behaviour continues only from an exactly known activation
   /\ u' = uu /\ x' = s /\ pc' = "fwd" /\ stage' = 1 /\ ks' = << >>
   /\ ev' = [op |-> "ctl"]
   /\ UNCHANGED <<p, s, fw, n>>
@@ -232,6 +274,7 @@ RKStage ==
      /\ x' = [q |-> Add(s.q, Mul(p.h, WSum(k2, c, stage, "dq"))),
               v |-> Add(s.v, Mul(p.h, WSum(k2, c, stage, "dv"))),
               w |-> Add(s.w, Mul(p.h, WSum(k2, c, stage, "dw"))),         \* no actrange clamp inside the stages
+              wh |-> s.wh,
               t |-> s.t]
   /\ stage' = stage + 1 /\ pc' = "fwd"
   /\ ev' = [op |-> "rkstage"]
@@ -256,9 +299,26 @@ DerivedOK == pc \notin {"model", "actuator"} => p.meff = MEff0(p) /\ p.beff = BE
 TimeAdvances == IsStep => ev.post.t = Add(ev.pre.t, ev.p.h)
 TimeIsSteps  == pc = "ctl" /\ n > 0 => \E t0 \in T0s : s.t = Add(t0, Mul(RI(n), p.h))
 \* activations stay within actrange
-ActInRange == AP(p).alim => Le(AP(p).alo, s.w) /\ Le(s.w, AP(p).ahi)
+ActInRange == AP(p).alim => LeL(AP(p).alo, s.w) /\ LeL(s.w, s.wh) /\ LeL(s.wh, AP(p).ahi)
 \* activation law: explicit Euler on w_dot (single-step integrators), frozen when actuation or the group is disabled
-ActLaw == IsStep /\ ev.p.integ # "RK4" =>
+\* the enclosure of exp used by filterexact is a proper, narrow interval inside (0, 1)
+EnclosureOK == pc \notin {"model", "actuator", "integrator"} /\ AP(p).dyn = "filterexact" =>
+                 /\ LtL(Zero, p.elo) /\ LtL(p.elo, p.ehi) /\ LtL(p.ehi, One) /\ LtL(Mul(Sub(p.ehi, p.elo), RI(65536)), One)
+                 /\ LET r == Div(p.h, AP(p).tau) ord == ExpOrder(r) IN        \* the bracketing terms do decrease
+                    Lt(RAbs(ExpTerm(r, ord)), RAbs(ExpTerm(r, ord - 1))) /\ Le(r, RI(ord - 1))
+\* filterexact: the new activation is a convex combination of act and ctrl (clamped), and the clamp is exact:
+\* when the whole enclosure lies beyond a bound the activation IS that bound
+FilterExactLaw == IsStep /\ AP(ev.p).dyn = "filterexact" /\ ev.p.actuation /\ ev.p.groupon /\ ev.p.integ # "RK4" =>
+  LET a  == AP(ev.p)
+      uc == Ctrl(a, ev.u)
+      y  == Add(ev.pre.w, Mul(Sub(uc, ev.pre.w), ev.p.elo))            \* the end of the enclosure nearer to act
+      lo == RMin(ev.pre.w, uc)
+      hi == RMax(ev.pre.w, uc) IN
+  /\ LeL(ev.post.w, ev.post.wh)
+  /\ (~a.alim => LeL(lo, ev.post.w) /\ LeL(ev.post.wh, hi))
+  /\ (a.alim /\ LeL(a.ahi, y) /\ Le(ev.pre.w, uc) => ev.post.w = a.ahi /\ ev.post.wh = a.ahi)
+  /\ (a.alim /\ LeL(y, a.alo) /\ Le(uc, ev.pre.w) => ev.post.w = a.alo /\ ev.post.wh = a.alo)
+ActLaw == IsStep /\ ev.p.integ # "RK4" /\ AP(ev.p).dyn # "filterexact" =>
             ev.post.w = (IF ~(HasState(AP(ev.p)) /\ ev.p.actuation) THEN ev.pre.w
                          ELSE IF ~ev.p.groupon THEN NextAct(ev.p, ev.pre.w, Zero)
                          ELSE NextAct(ev.p, ev.pre.w, ev.fw.wdot))
@@ -329,6 +389,7 @@ L_RK == {"RK4"}
 L_True == {TRUE}
 L_Bool == BOOLEAN
 L_Passive == {"none"}
-L_ActsQ == {"none", "servo", "integ", "filterlim", "reflect", "affgaincl"}
+L_FE == {"fexactlim"}
+L_ActsQ == {"none", "servo", "integ", "filterlim", "reflect", "affgaincl", "fexactlim"}
 L_ActsA == AllPresets \ {"none"}
 =============================================================================
